@@ -27,6 +27,11 @@ SLOT_DEFECTS = [{"module": "ConcSlotsMC", "cfg": slots_cfg([1, 2], sc, defects=[
                 for d, sc in (("no_recheck_free", "SFree"), ("no_recheck_queue", "SQueue"), ("recycle_wrong_mutex", "SRecycle"), ("recycle_before_clear", "SClear"))]
 
 
+# EventQueue with the OrderedQueueList policy (sorting splices under contention; ordered by position in the producer's program, which keeps TraceCQ's
+# per-producer order rule valid)
+RUNNER_OQ = {"source": "cq_run.cpp", "name": "cq_run_ordered", "defines": ["W_ORDERED=1"], "sanitize": True, "every": 2, "trace_env": {"ORDERED": "1"}}
+
+
 ASSUME = ["TLC and the CommunityModules JSON reader are correct",
           "harness/vsched.h serialises the real code at every mutex / atomic / condition-variable operation and at the EVENTPP_VERIF_POINT markers; "
           "behaviour that needs weaker-than-sequentially-consistent memory is not explored",
@@ -96,7 +101,7 @@ def c06(tier, seed):
         models.append({"module": "ConcQueueMC", "tag": "3threads", "cfg": mc_cfg([1, 2, 3], "Scen3"), "heap": "16g"})
         models.append({"module": "ConcSlotsMC", "tag": "slots-3threads", "cfg": slots_cfg([1, 2, 3], "S3", maxslots=5), "heap": "24g", "timeout": 3600})
     stress_sc = [{"scenario": s} for s in ["nq,nq|pa,pa", "nq,nq,nq|pi,pa", "nq,nq|tk|po,po", "nq,nq|cl|pa", "nq,nq,nq,nq|pu,pa", "nq|nq,tk|pa,pk", "nq,nq,nq|po,pi|pa"]]
-    return {"models": models, "runner": RUNNER_CQ, "trace_module": "TraceCQ", "scenarios": scen, "corpus": [CORPUS_PB], "extra_runners": [RUNNER_HQ], "model_defects": SLOT_DEFECTS,
+    return {"models": models, "runner": RUNNER_CQ, "trace_module": "TraceCQ", "scenarios": scen, "corpus": [CORPUS_PB], "extra_runners": [RUNNER_HQ, RUNNER_OQ], "model_defects": SLOT_DEFECTS,
             "stress_runners": STRESS_CQ, "stress_scenarios": stress_sc,
             "rule": "ConcQueue.tla model-checked over all interleavings of the scenario sets; on the real EventQueue each scenario (producers x consumers "
                     "process/processOne/processIf/processUntil/takeEvent/peekEvent/clearEvents) is explored by depth-first schedule enumeration with a "
@@ -213,6 +218,12 @@ def cc_generated(tier, seed, have):
             + [{"scenario": s, "bound": 1, "max": 1500 if quick else 30000, "rand": 150 if quick else 2000, "generated": True} for s in s3])
 
 
+def lazy_cfg(threads, defects=()):
+    return ("INIT Init\nNEXT Next\nCONSTANTS Threads = {%s}\n Scenarios <- Scen\n Defects = %s\n Protos = {1, 2}\n"
+            "INVARIANT Linearizable\nINVARIANT NothingLost\nINVARIANT OneListPerProto\nINVARIANT NoDeadlock\nCHECK_DEADLOCK FALSE\n"
+            % (", ".join(map(str, threads)), tla_value(set(defects))))
+
+
 def c03(tier, seed):
     quick = tier == "quick"
     sc2 = ["2:i1|r1", "2:i2|r2,a", "2:a,v|r1", "2:r1|r1", "2:p,o1|r1,e", "2:v|r2,a", "2:i1,v|r1,a", "2:a,r10|v", "1:r1,e|a,e", "2:f|i2,r1", "0:a,r10|e,v",
@@ -228,7 +239,9 @@ def c03(tier, seed):
         scen.append({"scenario": s, "bound": 3 if s.count("|") == 1 else 2, "max": 3000 if quick else 60000, "extra_only": True})
     models = [{"module": "ConcCLMC", "tag": "2threads", "cfg": cc_cfg([1, 2], "ScenSet")},
               # the SpinLock policy mutex refines the `mtx` abstraction the other models use
-              {"module": "SpinLock", "tag": "spinlock", "cfg": sl_cfg([1, 2, 3], 2 if quick else 3)}]
+              {"module": "SpinLock", "tag": "spinlock", "cfg": sl_cfg([1, 2, 3], 2 if quick else 3)},
+              # the lazily created per-prototype lists of the heterogeneous classes (double-checked creation under callbackListListMutex)
+              {"module": "LazySlotMC", "tag": "lazy-slot", "cfg": lazy_cfg([1, 2] if quick else [1, 2, 3])}]
     if not quick:
         models.append({"module": "ConcCLMC", "tag": "3threads-1call", "cfg": cc_cfg([1, 2, 3], "ScenSet1"), "heap": "16g"})
         models.append({"module": "SpinLock", "tag": "spinlock-4threads", "cfg": sl_cfg([1, 2, 3, 4], 2)})
@@ -240,7 +253,8 @@ def c03(tier, seed):
     return {"models": models, "runners": RUNNERS_CC, "extra_runners": RUNNERS_HC, "extra_every": 3, "trace_module": "TraceCC", "scenarios": scen,
             "stress_runners": STRESS_CC, "stress_scenarios": stress_sc,
             "inductive": [{"module": "SpinLockInd", "steps": [("IndInit", "IndInv", 0), ("IndInv", "IndInv", 1), ("IndInv", "MutualExclusion", 0)]}],
-            "corpus": [], "model_defects": [{"module": "SpinLock", "cfg": sl_cfg([1, 2, 3], 2, defects=["cas_stale"]), "defect": "cas_stale"}],
+            "corpus": [], "model_defects": [{"module": "SpinLock", "cfg": sl_cfg([1, 2, 3], 2, defects=["cas_stale"]), "defect": "cas_stale"},
+                              {"module": "LazySlotMC", "cfg": lazy_cfg([1, 2], defects=["no_recheck"]), "defect": "no_recheck"}],
             "rule": "ConcCL.tla (threads x micro-steps of callbacklist.h with the abstract list updated at the linearization points) model-checked over all "
                     "interleavings of the scenario sets; on the real CallbackList and EventDispatcher (std::map and std::unordered_map) every scenario "
                     "(all mixes of append/prepend/insert/remove/ownsHandle/empty/invoke/forEach with shared handles) is explored by depth-first "
